@@ -23,8 +23,10 @@ import (
 // The harnesses run the real Module.verifyRegistration (+ validateAudience, validateRegistration,
 // validateRetraction, credential.PresentationSigner, did.ParseDIDURL, vc.VerifiablePresentation accessors,
 // time.Until) on a presentation value object:
-//   H16a  composition of all checks (bit-vector encoding), every input symbolic
-//   H16b  the validity window in exact arithmetic incl. saturation of time.Sub (integer encoding)
+//   H16a  composition of all checks, every input symbolic, small bounds on credentials / Match / store
+//   H16c  registration rules in depth (credentials' expirations, Match results) behind a fixed valid front
+//   H16d  retraction rules in depth (credentials, retract_jti of any JSON type, store rows) behind the same front
+//   H16b  the validity window in exact arithmetic, both directions, incl. saturation of time.Sub (integer encoding)
 
 // The package init() compiles the service-definition JSON schema (embed + jsonschema): not needed here.
 //verif:stub github.com/nuts-foundation/nuts-node/discovery.init#1 => noop
@@ -125,7 +127,7 @@ var hSigners = []hSigner{
 }
 
 func hJWTKidAlg(tokenString string) (string, jwa.SignatureAlgorithm, error) {
-	vAssert(tokenString == hRaw, "H16a.kid_of_presentation: signer is not taken from the presentation's own JWS")
+	vAssert(tokenString == hRaw, "H16.kid_of_presentation: signer is not taken from the presentation's own JWS")
 	if hS.signer < 0 {
 		vTag("signer")
 		hS.signer = vChoice(vParam("signers", len(hSigners)))
@@ -275,15 +277,15 @@ func hTimeSub(t, u time.Time) time.Duration {
 	tw, uw := vGetField(&t, "wall").(uint64), vGetField(&u, "wall").(uint64)
 	ts, us := vGetField(&t, "ext").(int64), vGetField(&u, "ext").(int64) // sec()
 	if hS.relative {
-		vAssert(hS.exp.present && len(hS.clockSec) == 1, "H16a.until_exp_now: time difference taken for other instants than the token's exp and the current time")
-		vAssert(tw == uint64(hS.exp.nsec) && ts == int64(hS.exp.sec)+hUnixToInternal, "H16a.until_exp: time difference taken from another instant than the token's exp")
-		vAssert(uw == uint64(hS.clockNsec[0]) && us == int64(hS.clockSec[0])+hUnixToInternal, "H16a.until_now: time difference taken to another instant than the current time")
+		vAssert(hS.exp.present && len(hS.clockSec) == 1, "H16.until_exp_now: time difference taken for other instants than the token's exp and the current time")
+		vAssert(tw == uint64(hS.exp.nsec) && ts == int64(hS.exp.sec)+hUnixToInternal, "H16.until_exp: time difference taken from another instant than the token's exp")
+		vAssert(uw == uint64(hS.clockNsec[0]) && us == int64(hS.clockSec[0])+hUnixToInternal, "H16.until_now: time difference taken to another instant than the current time")
 		return time.Duration(hS.remSec*1000000000 + hS.remNsec)
 	}
-	vAssert(tw < 1<<63 && uw < 1<<63, "H16b.time_model: instant with monotonic clock reading reached the Sub model")
-	vAssert(ts > -(1<<61) && ts < 1<<61 && us > -(1<<61) && us < 1<<61, "H16b.time_model_range: instant outside the range of the Sub model")
+	vAssert(tw < 1<<63 && uw < 1<<63, "H16.time_model: instant with monotonic clock reading reached the Sub model")
+	vAssert(ts > -(1<<61) && ts < 1<<61 && us > -(1<<61) && us < 1<<61, "H16.time_model_range: instant outside the range of the Sub model")
 	tn, un := int64(tw&nsecMask), int64(uw&nsecMask) // nsec()
-	ds, dn := ts-us, tn-un                             // exact difference = ds*1e9 + dn, -1e9 < dn < 1e9
+	ds, dn := ts-us, tn-un                           // exact difference = ds*1e9 + dn, -1e9 < dn < 1e9
 	// maxDuration = 9223372036*1e9 + 854775807, minDuration = -(9223372036*1e9 + 854775808)
 	// ds*1e9+dn > maxDuration  <=>  ds-9223372036 =: hi > 1 || hi == 1 && dn > 854775807-1e9 || hi == 0 && dn > 854775807
 	// ds*1e9+dn < minDuration  <=>  ds+9223372036 =: lo < -1 || lo == -1 && dn < 1e9-854775808 || lo == 0 && dn < -854775808
@@ -534,8 +536,12 @@ func (c *hCase) drawCredentials(max int) {
 	}
 }
 
+var hCredIDs = []string{"urn:credential:0", "urn:credential:1", "urn:credential:2", "urn:credential:3"}
+
 func (c *hCase) addCredential(withExpiration bool) {
 	var cred vc.VerifiableCredential
+	id := hURI(hCredIDs[len(c.credExp)]) // distinct credentials have distinct ids
+	cred.ID = &id
 	var e hInstant
 	if withExpiration {
 		e = hDrawInstant("credential.expirationDate", false)
